@@ -18,3 +18,7 @@ func verifParse(p *Parser, line, hashID string) (Expression, error) {
 	}
 	return e, nil
 }
+
+// VerifParse is the exported trampoline used by call sites outside this package
+// (validation) that are redirected by the overlay rewriter.
+func VerifParse(p *Parser, line, hashID string) (Expression, error) { return verifParse(p, line, hashID) }
